@@ -1,6 +1,6 @@
 (* C15 -- The palette honours explicit indices and resolves every colour. *)
 From Coq Require Import List Arith ZArith QArith Qcanon Bool.
-From Verif Require Import Model.Field Model.Color Model.Palette Proofs.Palette_facts
+From Verif Require Import Model.Field Model.Color Model.Palette Proofs.Palette_facts Proofs.PaletteSet_facts
   Proofs.Color_facts Corr.Common Corr.C15.
 Import ListNotations.
 
@@ -35,6 +35,21 @@ Theorem C15_palette_only :
       forall c, In c pal -> In c colors \/ c = black.
 Proof. exact palette_only. Qed.
 Print Assumptions C15_palette_only.
+
+(* T2: "a deterministic order": the result is a function of the *set* of colours -- permuting or
+   repeating the colours changes nothing -- for every colour type whose rgba comparison is a
+   strict weak order that separates different unindexed colours *)
+Theorem C15_palette_set_invariant :
+  forall (C : Type) (ceqb : C -> C -> bool) (cidx : C -> option nat) (cltb : C -> C -> bool) (black : C),
+    (forall a b, ceqb a b = true <-> a = b) ->
+    (forall a, cltb a a = false) ->
+    (forall a b c, cltb a b = true -> cltb b c = true -> cltb a c = true) ->
+    (forall a b c, cltb a b = false -> cltb b c = false -> cltb a c = false) ->
+    (forall a b, a <> b -> cidx a = None -> cidx b = None -> cltb a b = true \/ cltb b a = true) ->
+    forall l1 l2 : list C, (forall c, In c l1 <-> In c l2) ->
+      uniq_sort_cpal_colors C ceqb cidx cltb black l1 = uniq_sort_cpal_colors C ceqb cidx cltb black l2.
+Proof. exact palette_set_invariant. Qed.
+Print Assumptions C15_palette_set_invariant.
 
 (* the executable instance used by the correspondence check satisfies the hypothesis *)
 Theorem C15_instance_eqb_ok : forall a b : qcolor, color_eqb a b = true <-> a = b.
